@@ -193,7 +193,9 @@ def pyFits (ss : Schemas) (f : Field) : Bool :=
   let m := f.ty.getMeta
   match f.ty with
   | .scalar _ value _ _ =>
-    if f.ty.isConcrete then pyScalarVal? value else pyPlainVal m.dflt
+    -- (a LIST default on a scalar-typed member would be printed into the signature: one list
+    -- shared by every instance)
+    if f.ty.isConcrete then pyScalarVal? value else pyScalarVal? m.dflt
   | .array .. | .enum .. | .disj .. => pyPlainVal m.dflt
   | .ref p n _ =>
     !m.dflt.isNilV &&
@@ -213,6 +215,19 @@ def pyFits (ss : Schemas) (f : Field) : Bool :=
            | _ => false)
         | _ => false)
      | none => false)
+  | _ => false
+
+/-! ### instance independence (Python): which defaults are evaluated once, at class definition -/
+
+/-- expressions whose value is a mutable object -/
+def pyMutableExpr : PyExpr → Bool
+  | .list _ | .emptyList | .emptyDict | .call .. | .goMap => true
+  | _ => false
+
+/-- the printed default sits in the `__init__` signature (evaluated once when the class is defined)
+    AND is mutable: every instance constructed without that argument shares it -/
+def pySharedDefault : PyField → Bool
+  | .plain e => pyMutableExpr e
   | _ => false
 
 /-! ### reports for the driver -/
